@@ -124,6 +124,7 @@ def run_harness(binary, ops_path, trace_path, post="export,common,json", timeout
 
 FIND_RE = re.compile(r'^"FINDING~~(\d+)~~(.*)"$')
 COV_RE = re.compile(r'^"COV~~(\d+)~~(T|F)~~(T|F)~~([^~]*)~~(\d+)(?:~~(.*))?"$')
+ROUND_RE = re.compile(r'^"ROUND~~(\d+)~~(\w+)~~(T|F)"$')
 STAT_RE = re.compile(r'^(\d+) states generated, (\d+) distinct states found')
 STR_RE = re.compile(r'"((?:[^"\\]|\\.)*)"')
 
@@ -142,8 +143,15 @@ def tlc_trace(trace_path, workdir, cfg="Trace.cfg", module="Trace.tla", timeout=
     shutil.rmtree(jt, ignore_errors=True)
     shutil.rmtree(os.path.join(workdir, "md"), ignore_errors=True)
     findings, cov, states = [], [], 0
+    rounds = {}
     ok = False
     for line in r.stdout.splitlines():
+        m = ROUND_RE.match(line)
+        if m:
+            e = rounds.setdefault(m.group(2), [0, 0])
+            e[1] += 1
+            e[0] += m.group(3) == "T"
+            continue
         m = FIND_RE.match(line)
         if m:
             findings.append({"line": int(m.group(1)), "sig": m.group(2).split("~~")})
@@ -161,7 +169,7 @@ def tlc_trace(trace_path, workdir, cfg="Trace.cfg", module="Trace.tla", timeout=
             ok = True
     if not ok:
         raise ToolError("TLC trace validation did not complete on %s:\n%s" % (trace_path, r.stdout[-3000:]))
-    return {"findings": findings, "cov": cov, "states": states}
+    return {"findings": findings, "cov": cov, "states": states, "rounds": rounds}
 
 
 def split_trace(trace_path, nshards, workdir):
@@ -213,7 +221,12 @@ def validate(trace_path, workdir, nshards=None, env_extra=None):
             r["shard"] = p
             res.append(r)
     findings, cov, states, events = [], [], 0, 0
+    rounds = {}
     for r in res:
+        for k, (h, n) in r.get("rounds", {}).items():
+            e = rounds.setdefault(k, [0, 0])
+            e[0] += h
+            e[1] += n
         with open(r["shard"]) as f:
             lines = f.readlines()
         events += len(lines)
@@ -222,7 +235,7 @@ def validate(trace_path, workdir, nshards=None, env_extra=None):
         for fd in r["findings"]:
             fd["replay_ops"] = session_ops(lines, fd["line"])
             findings.append(fd)
-    return {"findings": findings, "cov": cov, "states": states, "events": events}
+    return {"findings": findings, "cov": cov, "states": states, "events": events, "rounds": rounds}
 
 
 def session_ops(lines, upto):
